@@ -48,6 +48,7 @@ type Cfg struct {
 	CallbackPathRefs   bool // a callback's path item may be a reference to a path of the same document
 	AliasChains        bool // with NoChains: a root component may be a bare reference to an object component of another document
 	PercentSpellings   bool // local references may spell a character of their fragment percent-encoded
+	CallbackSelfRefs   bool // an operation's callback may be the path the operation is declared under
 	CallbackFileCycles bool // a callback kept in a file of its own may refer to that file again from inside
 	NullEntries        bool // a null entry in encoding maps, sorted before the entry with references (the only map whose null entries stay nil after parsing)
 }
@@ -707,7 +708,23 @@ func Generate(t *rapid.T, cfg Cfg) *Layout {
 			}
 			g.feat["external"]++
 		} else {
-			paths[key] = g.object("pathItem", root, depth)
+			pi := g.object("pathItem", root, depth)
+			paths[key] = pi
+			if cfg.CallbackSelfRefs && g.chance(4, "cbselfref") {
+				// an operation whose callback is the path the operation itself is declared under: a cycle no
+				// inlining can remove (OpenAPI 3.0 has no components section for path items)
+				for _, m := range []string{"get", "post"} {
+					if op, ok := pi[m].(M); ok {
+						cbs, _ := op["callbacks"].(M)
+						if cbs == nil {
+							cbs = M{}
+						}
+						cbs["self"] = M{"{$request.body#/u}": M{"$ref": "#/paths/" + esc(key)}}
+						op["callbacks"] = cbs
+						g.feat["cycle:callback-own-path"]++
+					}
+				}
+			}
 		}
 	}
 	if cfg.PathChains && g.chance(3, "pathchain") {
